@@ -71,6 +71,11 @@ TC_MULTI_Q = mc("TC_Multi_q", Templates={"F0"}, MaxAuc=2, Amts={2}, Prices={2}, 
                 CreateUntil=1, Bidders={"u2"})
 TC_MULTIB_Q = mc("TC_MultiB_q", Templates={"B0"}, MaxAuc=2, Amts={2, 3}, Prices={2}, MaxBids=2, Tmax=4, Jump=3, CapSet={2, 5}, StartOffsets={0},
                  CreateUntil=1, Bidders={"u2"})
+TC_LIFE_Q = mc("TC_Life_q", D=4, Templates={"Fl", "Bl"}, MaxAuc=1, Amts={2}, Prices={4}, MaxBids=1, Tmax=10, Jump=3, CapSet={5},
+               CreateUntil=2, StartOffsets={0, 1})
+TC_LIFE2_Q = mc("TC_Life2_q", D=4, Templates={"Fl", "Bl"}, MaxAuc=2, Amts={2}, Prices={4}, MaxBids=0, Tmax=9, Jump=3, CapSet={5},
+                CreateUntil=1, StartOffsets={0, 1})
+TC_GENESIS_Q = mc("TC_Genesis_q", Templates={"B1", "F1"}, MaxAuc=2, Amts={2}, Prices={2}, MaxBids=1, Tmax=6, Jump=2, WithGenesis=True)
 GEN_GENERAL = [
     gen("sysA", 110, 40, Templates={"B0", "B1", "B2", "F0", "F1", "F3"}, MaxAuc=2, Prices={1, 2, 3}, Amts={1, 2, 3, 5, 8},
         CapSet={3, 5, 10}, MaxBids=6, MaxDon=2, Tmax=24, Jump=3, CreateUntil=6, StartOffsets={0, 1, 2}, Dur=3, WithInvalid=True, WithGenesis=False),
@@ -117,26 +122,27 @@ def scale(gens, f):
 
 
 PLANS = {
-    "C01": dict(mc=[MC_BATCH_Q, MC_FIXED_Q], gen=GEN_GENERAL),
+    "C01": dict(mc=[MC_BATCH_Q, MC_FIXED_Q], gen=GEN_GENERAL, tc=[TC_BATCH_Q, TC_FIXED_Q, TC_LIFE_Q], tc_max=1500),
     "C02": dict(mc=[MC_BATCH_Q, MC_FIXED_Q], gen=GEN_GENERAL + GEN_PARAMS, tc=[TC_EXT_Q, TC_CANCEL_Q], tc_max=2500),
-    "C03": dict(mc=[MC_BATCH_Q], gen=GEN_GENERAL),
+    "C03": dict(mc=[MC_BATCH_Q], gen=GEN_GENERAL, tc=[TC_BATCH_Q, TC_EXT_Q], tc_max=2500),
     "C04": dict(mc=[MC_BATCH_Q, MC_FIXED_Q], gen=GEN_GENERAL, tc=[TC_BATCH_Q, TC_FIXED_Q, TC_FIXEDI_Q], tc_max=2000),
-    "C05": dict(mc=[MC_BATCH_Q, MC_FIXED_Q], gen=GEN_GENERAL),
+    "C05": dict(mc=[MC_BATCH_Q, MC_FIXED_Q], gen=GEN_GENERAL, tc=[TC_BATCH_Q, TC_FIXED_Q, TC_MULTIB_Q], tc_max=1500),
     "C06": dict(mc=[MC_FIXED_Q], gen=GEN_GENERAL, tc=[TC_FIXED_Q, TC_FIXEDI_Q], tc_max=3000),
     "C07": dict(mc=[MC_LIFE_Q, MC_LIFE2_Q],
-                gen=GEN_GENERAL + [dict(g, name=g["name"] + "F", consts=dict(g["consts"], Faults={0, 1, 2, 3, 5, 8})) for g in GEN_MANY]),
-    "C08": dict(mc=[MC_LIFE_Q, MC_LIFE2_Q], gen=GEN_GENERAL),
-    "C09": dict(mc=[MC_LIFE_Q, MC_LIFE2_Q], gen=GEN_GENERAL + GEN_LONG[:1]),
-    "C10": dict(mc=[MC_INVALID1_Q, MC_INVALIDF_Q], gen=GEN_GENERAL),
+                gen=GEN_GENERAL + [dict(g, name=g["name"] + "F", consts=dict(g["consts"], Faults={0, 1, 2, 3, 5, 8})) for g in GEN_MANY],
+                tc=[TC_LIFE_Q, TC_LIFE2_Q], tc_max=2500),
+    "C08": dict(mc=[MC_LIFE_Q, MC_LIFE2_Q], gen=GEN_GENERAL, tc=[TC_LIFE_Q, TC_LIFE2_Q, TC_EXT_Q], tc_max=2500),
+    "C09": dict(mc=[MC_LIFE_Q, MC_LIFE2_Q], gen=GEN_GENERAL + GEN_LONG[:1], tc=[TC_LIFE_Q, TC_LIFE2_Q, TC_FIXED_Q], tc_max=2000),
+    "C10": dict(mc=[MC_INVALID1_Q, MC_INVALIDF_Q], gen=GEN_GENERAL, tc=[TC_FIXEDI_Q, TC_MODIFY_Q], tc_max=2500),
     "C11": dict(mc=[MC_BATCH_Q], gen=GEN_GENERAL, tc=[TC_MODIFY_Q], tc_max=4000),
     "C12": dict(mc=[MC_INVALID1_Q, MC_INVALIDF_Q], gen=GEN_GENERAL, tc=[TC_CANCEL_Q], tc_max=2500),
     "C13": dict(mc=[MC_BATCH_Q], gen=GEN_GENERAL + GEN_LONG[1:] + GEN_PARAMS[:1], tc=[TC_EXT_Q], tc_max=12000),
-    "C15": dict(mc=[MC_GENESIS_Q], gen=[dict(g, consts=dict(g["consts"], WithGenesis=True, KindBag=("<-", "BagGenesis"),
+    "C15": dict(mc=[MC_GENESIS_Q], tc=[TC_GENESIS_Q], tc_max=3000, gen=[dict(g, consts=dict(g["consts"], WithGenesis=True, KindBag=("<-", "BagGenesis"),
                                                  Templates=set(g["consts"]["Templates"]) | {"Bx"})) for g in GEN_GENERAL]),
     "C16": dict(mc=[MC_BATCH_Q, MC_FIXED_Q], tc=[TC_EXT_Q], tc_max=2500,
                 gen=GEN_GENERAL + [dict(g, name=g["name"] + "Q", consts=dict(g["consts"], WithQueries=True, KindBag=("<-", "BagQueries")))
                                    for g in scale(GEN_GENERAL, 0.6)]),
-    "C18": dict(mc=[MC_INVALID1_Q, MC_INVALIDF_Q], gen=GEN_GENERAL + GEN_PARAMS),
+    "C18": dict(mc=[MC_INVALID1_Q, MC_INVALIDF_Q], gen=GEN_GENERAL + GEN_PARAMS, tc=[TC_FIXEDI_Q, TC_MODIFY_Q], tc_max=2500),
     "C19": dict(mc=[MC_MULTI_Q], gen=GEN_GENERAL, tc=[TC_MULTI_Q, TC_MULTIB_Q], tc_max=4000),
 }
 
